@@ -37,7 +37,7 @@ def golden_record(n, k):
                 values=[gkls.value(S.wide(), x) for x in probe_points(S)])
 
 
-def directions(S, i):
+def directions(S, i, deep=False):
     n = S.n
     out = []
     for ax in range(n):
@@ -48,9 +48,21 @@ def directions(S, i):
     d = S.T - S.M[i]
     d = d / np.linalg.norm(d)
     out += [d, -d]
-    for sg in itertools.islice(itertools.product((-1.0, 1.0), repeat=n), 0, 8):
+    for sg in itertools.islice(itertools.product((-1.0, 1.0), repeat=n), 0, 8 if not deep else 2 ** n):
         v = np.array(sg)
         out.append(v / np.linalg.norm(v))
+    if deep:
+        # towards the other minimisers, and skewed combinations of two axes
+        for j in range(10):
+            if j != i:
+                v = S.M[j] - S.M[i]
+                out.append(v / np.linalg.norm(v))
+        for a in range(n):
+            for b in range(n):
+                if a != b:
+                    v = np.zeros(n)
+                    v[a], v[b] = 1.0, -0.37
+                    out.append(v / np.linalg.norm(v))
     return out
 
 
@@ -161,7 +173,7 @@ def structure_case(task):
     w = S.wide()
     maxdisc = 0.0
     for i in range(1, 10):
-        for u in directions(S, i):
+        for u in directions(S, i, deep=task.get("deep", False)):
             # the centre of the ball first, on the same instances: continuity may not depend on what was evaluated before
             for inst in (w, S.p):
                 c = gkls.value(inst, S.M[i])
@@ -169,7 +181,7 @@ def structure_case(task):
                 if c != S.f[i]:
                     msgs.append(f"{tag}: value at minimiser {i} is {c!r} on re-evaluation, prescribed {S.f[i]!r}")
             # slope bound across the boundary: paraboloid gradient + cubic gradient, both <= 2*(|x-T|) + ... use C = 50
-            for delta in (1e-3, 1e-5, 1e-7, 1e-9):
+            for delta in ((1e-3, 1e-5, 1e-7, 1e-9) if not task.get("deep") else (1e-2, 1e-3, 1e-4, 1e-5, 1e-6, 1e-7, 1e-9, 1e-11)):
                 pin = S.M[i] + u * S.rho[i] * (1 - delta)
                 pout = S.M[i] + u * S.rho[i] * (1 + delta)
                 if S.in_ball(pout) != 0:
@@ -253,7 +265,7 @@ def run(ctx):
     res = Result()
     th = ctx.thorough
     gold = json.load(open(GOLD)) if os.path.exists(GOLD) else {}
-    tasks = [dict(n=n, k=k, gold=gold.get(f"{n},{k}"), planes=3 if th and n > 2 else 2)
+    tasks = [dict(n=n, k=k, gold=gold.get(f"{n},{k}"), planes=3 if th and n > 2 else 2, deep=th)
              for n in (2, 3, 4, 5) for k in range(1, 101)]
     out = pmap(structure_case, tasks, chunksize=4)
     ev = 0
@@ -285,8 +297,8 @@ def run(ctx):
     res.cov = dict(
         evaluations=ev, distinct_nontrivial=len(tasks),
         rule="one structural examination per GKLS function (tables, exact values at the 10 minimisers, paraboloid identity "
-             "on the lattice outside the balls, continuity across each of the 9 ball boundaries along 2n+2+8 directions at "
-             "4 scales, basin covers on the polar lattice, recorded reference values); distinct non-trivial = functions",
+             "on the lattice outside the balls, continuity across each of the 9 ball boundaries along 2n+2+8 directions (thorough: all sign vectors, towards the other minimisers, skewed axis pairs) at "
+             "4 (8) scales, basin covers on the polar lattice, recorded reference values); distinct non-trivial = functions",
         exhaustive=True, functions=len(tasks), least_separation=minsep, least_gap_to_global=mingap,
         largest_boundary_jump_at_1em7=maxdisc, basin_cells=cells, generator_state0=st0, reconstructions=len(ttasks),
         states=len(tasks), transitions=ev, traces_validated_against_impl=len(tasks),
